@@ -6,7 +6,7 @@ import RbV.Thm.GenSrcPwCustom
 with tie-breaks `T`) in the `curr = j % 2` halves of `S/I/D`, the register `S[curr][m]`, `Sn`, `Ly`, `Lx[j]` and the cells
 `(k, j)`, and the previous column `pc` in the `prev` halves, in `Sn[k]`, `Ly[k]` for `k > i` and in the S fields of the cells
 `(k, j − 1)`.  `cell_step`: one iteration of the translated `for i in 1..m + 1` moves the invariant from `i` to `i + 1` with the
-row `stepJT T …` of the mirror (or panics exactly when that row is `none`).  `column_loop`: the whole inner loop = `iterC`.
+row `stepJS T sCode …` of the mirror (or panics exactly when that row is `none`).  `column_loop`: the whole inner loop = `iterC`.
 -/
 set_option linter.unusedSimpArgs false
 set_option linter.unusedVariables false
@@ -14,10 +14,11 @@ namespace RbV.Thm.GenSrcPwColumn
 open RbV RbV.Rs RbV.Gen.TbCodes RbV.Gen.Limits RbV.Gen.SrcPwTypes RbV.Gen.SrcPwCustom RbV.Align RbV.Model.PairwiseFill
 open RbV.Thm.GenSrcPwTypes RbV.Thm.GenSrcPwCustom
 
-/-- row `i` of column `j` with tie-breaks `T`: `stepJT` on the model's rows (`pc` = previous column, `r` = row `i − 1`) -/
-def stepT (T : Ties) (sc : Sc) (cl : Clip) (x : List Nat) (m n j q : Nat) (xc : Int) (pc : List Row) (i : Nat) (r : Row) :
-    Option Row :=
-  stepJT T sc cl m n j i (x.getD (i - 1) 0) q xc (pc.getD (i - 1) default) (pc.getD i default) r
+/-- row `i` of column `j` with tie-breaks `T`: `stepJS` on the model's rows (`pc` = previous column, `r` = row `i − 1`) -/
+def stepT (T : Ties) (sCode : SCodeFn) (sc : Sc) (cl : Clip) (x : List Nat) (m n j q : Nat) (xc : Int) (pc : List Row) (i : Nat)
+    (r : Row) : Option Row :=
+  stepJS T sCode sc cl m n j i (x.getD (i - 1) 0) q xc (if i = m then r.xm else minScore) (pc.getD (i - 1) default)
+    (pc.getD i default) r
 
 structure ColInv (a : Aligner) (m n j i : Nat) (pc cur : List Row) (oc : Nat → Nat → TracebackCell) (olx : Nat → Nat) :
     Prop where
@@ -39,13 +40,14 @@ structure ColInv (a : Aligner) (m n j i : Nat) (pc cur : List Row) (oc : Nat →
   hOld : ∀ k j', k ≤ m → j' ≤ n → j' ≠ j → cellAt a k j' = oc k j'
   hOldLx : ∀ j', j' ≤ n → j' ≠ j → a.Lx.getD j' 0 = olx j'
 
-/-- `stepJT` reads only these fields of its three rows -/
-theorem stepJT_congr (T : Ties) (sc : Sc) (cl : Clip) (m n j i p q : Nat) (xc : Int) (pr1 pr r pr1' pr' r' : Row)
+/-- `stepJS` reads only these fields of its three rows -/
+theorem stepJS_congr (T : Ties) (sCode : SCodeFn) (sc : Sc) (cl : Clip) (m n j i p q : Nat) (xc b0 : Int)
+    (pr1 pr r pr1' pr' r' : Row)
     (h1 : pr1.s = pr1'.s) (h2 : pr.s = pr'.s) (h3 : pr.d = pr'.d) (h4 : pr.sn = pr'.sn) (h5 : pr.t.ts = pr'.t.ts)
     (h6 : pr.t.ly = pr'.t.ly) (h7 : r.s = r'.s) (h8 : r.i = r'.i) (h9 : r.xm = r'.xm) (h10 : r.t.ts = r'.t.ts)
     (h11 : r.t.lx = r'.t.lx) :
-    stepJT T sc cl m n j i p q xc pr1 pr r = stepJT T sc cl m n j i p q xc pr1' pr' r' := by
-  simp only [stepJT, h1, h2, h3, h4, h5, h6, h7, h8, h9, h10, h11]
+    stepJS T sCode sc cl m n j i p q xc b0 pr1 pr r = stepJS T sCode sc cl m n j i p q xc b0 pr1' pr' r' := by
+  simp only [stepJS, h1, h2, h3, h4, h5, h6, h7, h8, h9, h10, h11]
 
 theorem idx_inj (c k k' j j' : Nat) (hj : j < c) (hj' : j' < c) (h : k * c + j = k' * c + j') : k = k' ∧ j = j' := by
   have hc : 0 < c := by omega
@@ -119,24 +121,28 @@ theorem getD_snoc_eq {α : Type} (l : List α) (v d : α) : (l ++ [v]).getD l.le
   simp [List.getD_eq_getElem?_getD]
 
 /-- **one iteration of the inner loop moves the column invariant one row down** -/
-theorem cell_step (w : Nat → Nat → Int) (T : Ties) (a : Aligner) (x : List Nat) (m n i j q : Nat) (xc : Int)
+theorem cell_step (w : Nat → Nat → Int) (T : Ties) (sCode : SCodeFn) (hcell : CellEq w T sCode) (a : Aligner) (x : List Nat) (m n i j q : Nat) (xc : Int)
     (pc cur : List Row) (oc : Nat → Nat → TracebackCell) (olx : Nat → Nat) (hinv : ColInv a m n j i pc cur oc olx)
     (hx : x.length = m) (him : i < m) (hj : 1 ≤ j) (hjn : j ≤ n)
     (hlen : cur.length = i + 1) :
     custom_for5 w T.iT T.dT T.snT T.sn0T x m n j (j % 2) (1 - j % 2) q xc a (i + 1) =
-      (ofOpt (stepT T (scOf w a) (clOf a) x m n j q xc pc (i + 1) (cur.getD i default)) >>= fun r' =>
+      (ofOpt (stepT T sCode (scOf w a) (clOf a) x m n j q xc pc (i + 1) (cur.getD i default)) >>= fun r' =>
         Res.ok (writeRow a m (j % 2) (i + 1) j r')) ∧
     ∀ r', ColInv (writeRow a m (j % 2) (i + 1) j r') m n j (i + 1) pc (cur ++ [r']) oc olx := by
   obtain ⟨dims, hS, hXm, hReset, hI, hD, hSp, hDp, hSn, hLy, hLx, hCell, hCellP, hOld, hOldLx⟩ := hinv
   have hc : j % 2 < 2 := by omega
   have hcp : j % 2 ≠ 1 - j % 2 := by omega
   constructor
-  · rw [cell_update_mod_ties w T a x m n (i + 1) j q xc (cur.getD i default).t.ts (pc.getD (i + 1) default).t.ts dims hx
-      (by omega) (by omega) hj hjn (fun h => hReset (i + 1) (by omega) (by omega))
+  · have hB0 : (a.S.getD (j % 2) []).getD (i + 1) 0 = if i + 1 = m then (cur.getD i default).xm else minScore := by
+      by_cases h : i + 1 = m
+      · rw [if_pos h, h]; exact hXm
+      · rw [if_neg h]; exact hReset (i + 1) (by omega) (by omega)
+    rw [hcell a x m n (i + 1) j (j % 2) (1 - j % 2) q (x.getD (i + 1 - 1) 0) xc _ (cur.getD i default).t.ts
+      (pc.getD (i + 1) default).t.ts dims hx rfl (by omega) (by omega) hj hjn hc (by omega) hcp hB0
       (by unfold SIs; rw [Nat.add_sub_cancel, hCell i (Nat.le_refl i)]; exact (cellOf_reads _ _ _).1)
       (hCellP (i + 1) (by omega))]
     unfold stepT
-    rw [stepJT_congr T _ _ m n j (i + 1) _ q xc _ _ _ (pc.getD (i + 1 - 1) default) (pc.getD (i + 1) default)
+    rw [stepJS_congr T sCode _ _ m n j (i + 1) _ q xc _ _ _ _ (pc.getD (i + 1 - 1) default) (pc.getD (i + 1) default)
       (cur.getD i default)]
     all_goals simp only [rowPrev1, rowPrev, rowCur, Nat.add_sub_cancel]
     · exact hSp i (by omega)
@@ -224,10 +230,10 @@ theorem scOf_writeRow (w : Nat → Nat → Int) (a : Aligner) (m c i j : Nat) (r
 /-- **the inner loop of a column** (`for i in 1..m + 1`, translated text) from row `i` on **= `colRows (stepT T …)`**: panics iff
 a row of the mirror is `none`, otherwise ends in a state that holds the whole column (`ColInv … m`) -/
 theorem column_loop (w : Nat → Nat → Int) (T : Ties) (x : List Nat) (m n j q : Nat) (xc : Int) (pc : List Row) (sc : Sc)
-    (cl : Clip) (oc : Nat → Nat → TracebackCell) (olx : Nat → Nat) (hx : x.length = m) (hj : 1 ≤ j) (hjn : j ≤ n) :
+    (cl : Clip) (sCode : SCodeFn) (hcell : CellEq w T sCode) (oc : Nat → Nat → TracebackCell) (olx : Nat → Nat) (hx : x.length = m) (hj : 1 ≤ j) (hjn : j ≤ n) :
     ∀ (k i : Nat) (a : Aligner) (cur : List Row), ColInv a m n j i pc cur oc olx → cur.length = i + 1 → i + k = m →
       scOf w a = sc → clOf a = cl →
-      match colRows (stepT T sc cl x m n j q xc pc) k i cur with
+      match colRows (stepT T sCode sc cl x m n j q xc pc) k i cur with
       | none => List.foldlM (custom_for5 w T.iT T.dT T.snT T.sn0T x m n j (j % 2) (1 - j % 2) q xc) a
           (List.range' (i + 1) k) = Res.panic
       | some col => ∃ a', List.foldlM (custom_for5 w T.iT T.dT T.snT T.sn0T x m n j (j % 2) (1 - j % 2) q xc) a
@@ -243,16 +249,16 @@ theorem column_loop (w : Nat → Nat → Int) (T : Ties) (x : List Nat) (m n j q
     exact ⟨a, rfl, hinv, hlen, rfl⟩
   | succ k ih =>
     intro i a cur hinv hlen hik hsc hcl
-    have hstep := cell_step w T a x m n i j q xc pc cur oc olx hinv hx (by omega) hj hjn hlen
+    have hstep := cell_step w T sCode hcell a x m n i j q xc pc cur oc olx hinv hx (by omega) hj hjn hlen
     rw [hsc, hcl] at hstep
     simp only [colRows, List.range'_succ, List.foldlM_cons, hstep.1]
-    cases hr : stepT T sc cl x m n j q xc pc (i + 1) (cur.getD i default) with
+    cases hr : stepT T sCode sc cl x m n j q xc pc (i + 1) (cur.getD i default) with
     | none => simp only [obind_none, ofOpt_none, Res.panic_bind]
     | some r' =>
       simp only [obind_some, ofOpt_some, Res.ok_bind]
       have h2 := ih (i + 1) (writeRow a m (j % 2) (i + 1) j r') (cur ++ [r']) (hstep.2 r') (by simp [hlen]) (by omega)
         hsc hcl
-      cases hc : colRows (stepT T sc cl x m n j q xc pc) k (i + 1) (cur ++ [r']) with
+      cases hc : colRows (stepT T sCode sc cl x m n j q xc pc) k (i + 1) (cur ++ [r']) with
       | none => rw [hc] at h2; exact h2
       | some col =>
         rw [hc] at h2
